@@ -3,6 +3,7 @@ from pyvc.util import mget, native_file
 from . import textmodel
 
 PROPERTY = 'C06'
+UNITS = ['C06', 'C07']        # UnlessCallback.__call__ (C07's unit) must keep value and positions of the token it retypes
 TRUSTED = list(textmodel.TRUSTED)
 ASSUMPTIONS = []
 
